@@ -118,3 +118,74 @@ def case_lines(be, pk, settings, body):
     for k, v in settings.items():
         L.append(f"d.set {k} {fr(v) if isinstance(v, float) else v}")
     return L + body
+
+
+def adversarial(rng):
+    """structurally valid but hostile data: non-convex / zero P, P without diagonal, empty and duplicated rows, p > n,
+    fixed variables, crossing bounds, magnitudes 1e+-150, +-inf in h and in the bounds (all entries finite or +-inf where allowed)"""
+    n = rng.randint(1, 8)
+    p = rng.choice([0, 0, 1, 2, n, n + 2])
+    m = rng.choice([0, 1, 2, 5, 8])
+    pr = DProblem(n, p, m)
+    mag = lambda: rng.choice([1.0, 1.0, 1.0, 1e-150, 1e150, 1e-30, 1e30, 1e8, 1e-8])
+    kindP = rng.choice(["indef", "zero", "negdef", "nodiag", "psd", "huge"])
+    for i in range(n):
+        for j in range(i, n):
+            if kindP == "zero":
+                v = 0.0
+            elif kindP == "nodiag":
+                v = 0.0 if i == j else rng.uniform(-1, 1)
+            elif kindP == "negdef":
+                v = -rng.uniform(0.5, 2) if i == j else 0.0
+            elif kindP == "huge":
+                v = rng.uniform(-1, 1) * mag()
+            else:
+                v = rng.uniform(-1, 1) * (1.0 if rng.random() < 0.7 else 0.0)
+            pr.P[i][j] = v; pr.P[j][i] = v
+    if kindP == "psd":
+        for i in range(n):
+            pr.P[i][i] = abs(pr.P[i][i]) + n
+    pr.maskP = [[pr.P[i][j] != 0.0 for j in range(n)] for i in range(n)]
+    pr.c = [rng.uniform(-1, 1) * mag() for _ in range(n)]
+    sc = mag()
+    for i in range(p):
+        if rng.random() < 0.2 and i > 0:
+            pr.A[i] = list(pr.A[i - 1])            # duplicated row
+        elif rng.random() < 0.15:
+            pr.A[i] = [0.0] * n                     # empty row
+        else:
+            pr.A[i] = [rng.uniform(-1, 1) * sc if rng.random() < 0.6 else 0.0 for _ in range(n)]
+    pr.maskA = [[pr.A[i][j] != 0.0 for j in range(n)] for i in range(p)]
+    pr.b = [rng.uniform(-1, 1) * mag() for _ in range(p)]
+    sg = mag()
+    for i in range(m):
+        if rng.random() < 0.2 and i > 0:
+            pr.G[i] = list(pr.G[i - 1])
+        elif rng.random() < 0.15:
+            pr.G[i] = [0.0] * n
+        else:
+            pr.G[i] = [rng.uniform(-1, 1) * sg if rng.random() < 0.6 else 0.0 for _ in range(n)]
+    pr.maskG = [[pr.G[i][j] != 0.0 for j in range(n)] for i in range(m)]
+    pr.h = [rng.choice([rng.uniform(-1, 1) * mag(), math.inf, -math.inf, 1e30, 2e30, -2e30]) if rng.random() < 0.5 else rng.uniform(-1, 1) for _ in range(m)]
+    lb, ub = [], []
+    for j in range(n):
+        k = rng.choice(["free", "lb", "ub", "both", "fixed", "crossing", "huge"])
+        a, b_ = rng.uniform(-2, 0), rng.uniform(0, 2)
+        if k == "free":
+            lb.append(-math.inf); ub.append(math.inf)
+        elif k == "lb":
+            lb.append(a); ub.append(math.inf)
+        elif k == "ub":
+            lb.append(-math.inf); ub.append(b_)
+        elif k == "both":
+            lb.append(a); ub.append(b_)
+        elif k == "fixed":
+            lb.append(a); ub.append(a)
+        elif k == "crossing":
+            lb.append(b_); ub.append(a)
+        else:
+            lb.append(-1e30 * rng.choice([0.5, 1, 2])); ub.append(1e29 * rng.choice([1, 10, 100]))
+    pr.lb = lb if rng.random() < 0.85 else None
+    pr.ub = ub if rng.random() < 0.85 else None
+    pr.kind = kindP
+    return pr
